@@ -1741,6 +1741,196 @@ def _cols_at(case, op):
         return list(COLS)
 
 
+
+# ---- translator: the operator table of Table.where / Table._compare, read off the source with `ast`
+def extract_ops(repo):
+    import ast
+    src = open(os.path.join(repo, "coba/results/core.py"), encoding="utf-8").read()
+    tree = ast.parse(src)
+    table = next(n for n in ast.walk(tree) if isinstance(n, ast.ClassDef) and n.name == "Table")
+    fns = {f.name: f for f in table.body if isinstance(f, ast.FunctionDef)}
+    cmp_fn, where_fn = fns["_compare"], fns["where"]
+    # where(): Literal[...] of `comparison`, and the operators excluded from the bisect branch
+    literal = None
+    for a in where_fn.args.args:
+        if a.arg == "comparison" and a.annotation is not None:
+            for n in ast.walk(a.annotation):
+                if isinstance(n, ast.Tuple) and all(isinstance(e, ast.Constant) and isinstance(e.value, str) for e in n.elts):
+                    literal = [e.value for e in n.elts]
+    if literal is None: raise LookupError("Literal[...] annotation of where(comparison=) not found")
+    nobisect, guard = [], None
+    for n in ast.walk(where_fn):
+        if isinstance(n, ast.If) and any(isinstance(m, ast.Attribute) and m.attr == "_indexes" for m in ast.walk(n.test)):
+            for c in ast.walk(n.test):
+                if isinstance(c, ast.Compare) and isinstance(c.left, ast.Name) and c.left.id == "compare":
+                    if len(c.ops) != 1 or not isinstance(c.ops[0], ast.NotEq) or not isinstance(c.comparators[0], ast.Constant):
+                        raise ValueError("unexpected test on `compare` in the bisect condition: " + ast.unparse(c))
+                    nobisect.append(c.comparators[0].value)
+            guard = ast.unparse(n.test)
+            break
+    if guard is None: raise LookupError("bisect condition of where() not found")
+    # _compare(): the keys unpacked from {op: value}
+    keys = None
+    for n in ast.walk(cmp_fn):
+        if isinstance(n, ast.Compare) and isinstance(n.left, ast.Name) and n.left.id == "key" and isinstance(n.ops[0], ast.In):
+            keys = [e.value for e in n.comparators[0].elts]
+    if keys is None: raise LookupError("`key in [...]` of _compare not found")
+    # _compare(): one top-level `if comparison == "<op>" ...:` per operator
+    rows = []
+    cmpname = {ast.Eq: "Eq", ast.NotEq: "NotEq", ast.Lt: "Lt", ast.LtE: "LtE", ast.Gt: "Gt", ast.GtE: "GtE", ast.In: "In", ast.NotIn: "NotIn"}
+    for st in cmp_fn.body:
+        if not isinstance(st, ast.If): continue
+        op = None
+        for c in ast.walk(st.test):
+            if (isinstance(c, ast.Compare) and isinstance(c.left, ast.Name) and c.left.id == "comparison" and len(c.ops) == 1
+                    and isinstance(c.ops[0], ast.Eq) and isinstance(c.comparators[0], ast.Constant) and isinstance(c.comparators[0].value, str)):
+                op = c.comparators[0].value
+        if op is None: continue
+        inner = [s for s in st.body if isinstance(s, ast.If) and isinstance(s.test, ast.Compare) and isinstance(s.test.left, ast.Name)
+                 and s.test.left.id == "method" and isinstance(s.test.comparators[0], ast.Constant) and s.test.comparators[0].value == "bisect"]
+        if inner:
+            b = inner[0]
+            calls = []
+            for s in b.body:
+                found = [n for n in ast.walk(s) if isinstance(n, ast.Call) and isinstance(n.func, ast.Name) and n.func.id in ("my_bisect_left", "my_bisect_right")]
+                found.sort(key=lambda n: (n.lineno, n.col_offset))
+                calls += [n.func.id == "my_bisect_right" for n in found]
+            scan = b.orelse
+        else:
+            calls, scan = None, st.body
+        comps, guardnone = [], False
+        for s in scan:
+            for n in ast.walk(s):
+                if isinstance(n, ast.ListComp):
+                    for cond in n.generators[0].ifs:
+                        for c in ast.walk(cond):
+                            if isinstance(c, ast.Compare) and isinstance(c.left, ast.Name) and c.left.id == "c" and len(c.ops) == 1:
+                                if isinstance(c.ops[0], ast.IsNot) and isinstance(c.comparators[0], ast.Constant) and c.comparators[0].value is None:
+                                    guardnone = True
+                                elif type(c.ops[0]) in cmpname:
+                                    comps.append(cmpname[type(c.ops[0])])
+        rows.append((op, calls, comps[0] if len(comps) == 1 else ("Call" if not comps else "+".join(comps)), guardnone))
+    return {"literal": literal, "nobisect": nobisect, "keys": keys, "rows": rows, "guard": guard}
+
+
+
+def ops_lean(info):
+    q = lambda x: '"%s"' % x
+    def row(r):
+        op, calls, cmp_, guard = r
+        cs = "Option.none" if calls is None else "some [%s]" % ", ".join("true" if c else "false" for c in calls)
+        return "(%s, %s, %s, %s)" % (q(op), cs, q(cmp_), "true" if guard else "false")
+    for x in info["literal"] + info["keys"] + info["nobisect"] + [r[0] for r in info["rows"]] + [r[2] for r in info["rows"]]:
+        if not isinstance(x, str) or any(ch in x for ch in '"\\\n'):
+            raise ValueError("unexpected operator text %r" % (x,))
+    return ("-- GENERATED by harness/props/c17.py (pre_build) from coba/results/core.py on every run; do not edit.\n"
+            "namespace Coba.Generated.C17\n"
+            "def whereLiteral : List String := [%s]\n"
+            "def unpackKeys : List String := [%s]\n"
+            "def noBisectOps : List String := [%s]\n"
+            "def compareTable : List (String × Option (List Bool) × String × Bool) :=\n  [%s]\n"
+            "def extracted : Bool := true\n"
+            "end Coba.Generated.C17\n"
+            % (", ".join(map(q, info["literal"])), ", ".join(map(q, info["keys"])), ", ".join(map(q, info["nobisect"])),
+               ",\n   ".join(row(r) for r in info["rows"])))
+
+
+# ---- round g: cells of the library's own value types (HashableDense / HashableSparse / Categorical), (B) only
+# case = {"vt": {"type": "dense"|"sparse"|"cat", "build": how the CELLS are built, "cells": [...], "probes": [...],
+#                "container": "list"|"tuple"|"set"|"frozenset"|"dictkeys", "op": "bare"|"in"|"!in"|"=" , "indexed": bool}}
+# Expected answer: the plain row-by-row evaluation with == (any(cell == v for v in values)); nothing is hashed.
+
+def vt_value(kind, build, spec):
+    from coba.primitives import HashableDense, HashableSparse, Categorical
+    if kind == "dense":
+        if build == "map":   return HashableDense(map(int, list(spec)))          # one-shot iterator, as a parser would hand it over
+        if build == "gen":   return HashableDense((x for x in spec))
+        if build == "list":  return HashableDense(list(spec))
+        return HashableDense(tuple(spec))
+    if kind == "sparse":
+        return HashableSparse(dict((k, v) for k, v in spec))                     # explicit zeros are kept by the spec
+    if kind == "cat":
+        return Categorical(spec[0], list(spec[1]))
+    raise ValueError(kind)
+
+def vt_container(flavour, values):
+    if flavour == "list": return list(values)
+    if flavour == "tuple": return tuple(values)
+    if flavour == "set": return set(values)
+    if flavour == "frozenset": return frozenset(values)
+    if flavour == "dictkeys": return dict.fromkeys(values).keys()
+    raise ValueError(flavour)
+
+def vt_eval(case):
+    v = case["vt"]
+    from coba.results import Table
+    kind, op, flavour = v["type"], v["op"], v["container"]
+    sig = "where-value-types:%s:%s:%s:%s:%s" % (kind, v["build"], flavour, op, "indexed" if v["indexed"] else "scan")
+    tags = ["vt:" + kind, "vt:build:" + v["build"], "vt:container:" + flavour, "vt:op:" + op, "vt:" + ("indexed" if v["indexed"] else "scan")]
+    fails = []
+    try:
+        cells = [vt_value(kind, v["build"], c) for c in v["cells"]]
+        probes = [vt_value(kind, "tuple", c) for c in v["probes"]]
+        table = Table(columns=["x", "n"]).insert([[c, i] for i, c in enumerate(cells)])
+        if v["indexed"]:
+            table.index("x")
+        rows = list(table)
+        hit = lambda r: any(r[0] == w for w in probes)
+        if op == "=":
+            arg, expect = {"=": probes[0]}, [r for r in rows if r[0] == probes[0]]
+        elif op == "!in":
+            arg, expect = {"!in": vt_container(flavour, probes)}, [r for r in rows if not hit(r)]
+        elif op == "in":
+            arg, expect = {"in": vt_container(flavour, probes)}, [r for r in rows if hit(r)]
+        else:
+            arg, expect = vt_container(flavour, probes), [r for r in rows if hit(r)]
+        got = list(table.where(x=arg))
+        same = len(got) == len(expect) and all(a[1] == b[1] and a[0] == b[0] for a, b in zip(got, expect))
+        if not same:
+            fails.append(F("B", "cells %s built by %s, %s table: where(x=%s) with the values %r in a %s returns the rows n=%r; the plain row-by-row evaluation with == gives n=%r"
+                           % (kind, v["build"], "indexed" if v["indexed"] else "unindexed", op if op == "bare" else "{%r: ...}" % op, v["probes"], flavour,
+                              [r[1] for r in got], [r[1] for r in expect]), sig))
+        # the same value must be found whichever way the cell was built: a cell equals its probe iff their specs are equal up to the type's ==
+        nontrivial = 0 < len(expect) < len(rows)
+    except Exception as e:
+        fails.append(F("B", "value-type case %s raised %s: %s" % (json.dumps(v)[:300], type(e).__name__, e), sig + ":raised"))
+        nontrivial = False
+    return {"fails": fails, "nontrivial": nontrivial, "tags": tags, "impl": None, "model": None}
+
+def vt_snippet(case):
+    v = case["vt"]
+    return ("from coba.primitives import HashableDense, HashableSparse, Categorical\nfrom coba.results import Table\n"
+            "# cells of type %s built by %r: %r\n# probes %r in a %s, operator %s, %s column\n"
+            "# expected: rows r with any(r[0] == v for v in probes) (row by row, ==); see harness/props/c17.py vt_eval\n"
+            "import sys; sys.path.insert(0, 'harness'); from props.c17 import vt_eval\nprint(vt_eval(%r)['fails'])\n"
+            % (v["type"], v["build"], v["cells"], v["probes"], v["container"], v["op"], "indexed" if v["indexed"] else "unindexed", case))
+
+def vt_corpus():
+    cs = []
+    dense_cells = [[1, 0, 0], [0, 1, 0], [0, 0, 1], [0, 1, 0], [1, 0, 0], []]
+    dense_probes = [[[0, 1, 0], [0, 0, 1]], [[1, 0, 0]], [[9, 9]], [[]]]
+    sparse_cells = [[["a", 1]], [["a", 1], ["b", 0]], [["b", 2]], [["b", 2], ["c", 0.0]], [["a", 1], ["b", 2]], []]
+    sparse_probes = [[[["a", 1]]], [[["b", 2]], [["a", 1], ["b", 2]]], [[["z", 9]]], [[["a", 1], ["b", 0]]]]
+    cat_cells = [["x", ["x", "y", "z"]], ["y", ["x", "y", "z"]], ["z", ["x", "y", "z"]], ["y", ["x", "y", "z"]]]
+    cat_probes = [[["y", ["x", "y", "z"]]], [["x", ["x", "y"]], ["z", ["z"]]], [["q", ["q"]]]]
+    for flavour in ("set", "frozenset", "list", "tuple", "dictkeys"):
+        for op in ("bare", "in", "!in"):
+            for indexed in (False, True):
+                for build in ("map", "gen", "list", "tuple"):
+                    for pr in dense_probes:
+                        cs.append({"vt": {"type": "dense", "build": build, "cells": dense_cells, "probes": pr, "container": flavour, "op": op, "indexed": indexed}})
+                for pr in cat_probes:
+                    cs.append({"vt": {"type": "cat", "build": "new", "cells": cat_cells, "probes": pr, "container": flavour, "op": op, "indexed": indexed}})
+            for pr in sparse_probes:      # HashableSparse has no order: unindexed only
+                cs.append({"vt": {"type": "sparse", "build": "dict", "cells": sparse_cells, "probes": pr, "container": flavour, "op": op, "indexed": False}})
+    for pr in dense_probes:
+        for build in ("map", "tuple"):
+            for indexed in (False, True):
+                cs.append({"vt": {"type": "dense", "build": build, "cells": dense_cells, "probes": pr[:1], "container": "list", "op": "=", "indexed": indexed}})
+    for pr in sparse_probes:
+        cs.append({"vt": {"type": "sparse", "build": "dict", "cells": sparse_cells, "probes": pr[:1], "container": "list", "op": "=", "indexed": False}})
+    return cs
+
 class C17(Property):
     id = "C17"
     prop_modules = ["CobaVerif.Props.C17"]
@@ -1763,7 +1953,10 @@ class C17(Property):
             "harness itself asks every other spelling (1 / 1.0 / True, 0 / 0.0 / -0.0 / False, n / float(n)) and the first one again: every answer must be the plain evaluation "
             "of its own probe, whatever was asked before in the process; 12 % of the probe collections are a live column of the same or another live table (`t.where(a=other['b'])`); "
             "after every where the table asked, every table whose column was given and every list given must be exactly as before (a query changes neither its arguments nor any table); "
-            "groupby and copy likewise leave their table as it was")
+            "groupby and copy likewise leave their table as it was; round g: a deterministic corpus family of 650 cases with cells of the library's own value types "
+            "(HashableDense built from map()/generator/list/tuple, HashableSparse with explicit zeros, Categorical), probes in set / frozenset / list / tuple / dict keys, bare / in / !in / =, "
+            "unindexed and indexed column - checked (B) only against any(cell == v) row by row (the Lean Cell has no such values); "
+            "Phase 4: every case is also run through the machine with per-object _lohis caches (stepC) and the code must agree with it")
     trusted_base = [
         "Python's sorted() is modelled as 'TypeError iff two non-Missing members are incomparable, else the stable arrangement' (checked exhaustively "
         "against CPython for lists up to 5 over the value kinds); bisect_left/right as the textbook loop (same probes as CPython's C code)",
@@ -1771,6 +1964,12 @@ class C17(Property):
         "float cells are dyadic rationals with few digits, so repr(float) is their exact decimal expansion",
         "table objects sharing storage (copy()/where()): the model gives every object of a run the mutated dict (`share`); each alias is looked at once, "
         "right after the mutation (rows/columns/indexes, (A)); what an alias does afterwards (its cached _lohis) is not modelled and not observed",
+        "Phase 4: the per-object `_lohis` cache is modelled (CObj / stepC: None / {} / dict, filled by where and groupby, reset by insert, recomputed by index, handed on by copy); the driver runs "
+        "stepC on every case next to step and the code must agree with both; operations on an alias AFTER another object has mutated the shared lists are still not performed by the harness "
+        "(plan() skips them), so the stale-cache branch of stepC is exercised by the Lean counterexample only",
+        "Phase 4 translator: Generated/C17Ops.lean is rewritten on every run from coba/results/core.py (ast): Literal of where(comparison=), keys unpacked by _compare, operators excluded from the "
+        "bisect branch, and per operator block of _compare the my_bisect_left/right calls, the scan comparison and the `c is not None` guard; ops_table_eq_source proves it equal to the model's opTable "
+        "(the extraction reads call names and comparison node types, not the arithmetic around them)",
         "ops_refine is about linear histories (one object at a time: where/copy continue with the object they create); the harness extracts the linear "
         "history of every case (Driver.linearOf, mirrored in Runner) and compares code, runL and the specification machine runLS on it",
         "which repairs the tree under test contains is probed through the public Table API (detect_cfg: one tiny call per switch) and handed to the "
@@ -1816,8 +2015,34 @@ class C17(Property):
         "where_match_per_cell": "needs cfg.matchPerCell (fixes/C17-match-per-cell.diff); literal patterns only (trusted base: re.search)",
         "ops_refine": "linear histories only (several live objects sharing storage are outside: copy_shares_storage_counterexample); every step needs its decidable side condition (WFL); equality up to ==; groupby and match are not operations of the machine",
         "where_match_eq_spec": "needs a homogeneous column (all str or all numbers) and a literal pattern: forced, see where_match_missing_counterexample / where_match_first_cell_counterexample",
+        "multi_inv_reachable": "needs cfg.resortInsert and OKC (opOK for every operation on a FRESH object when its turn comes); says nothing of an object after ANOTHER object has "
+                               "mutated the shared lists (fresh = false: findings C17-F19/F20, stale_cache_counterexample); freshness is never regained in the ghost flag (a later index() through the stale object is not credited)",
+        "where_every_live_object": "as multi_inv_reachable plus whereOK for the query; about the cached lohis (effLohis / pwhereWith)",
         "copy_independent": "only for where/groupby/copy/listing; insert/index through one object change the others (recorded findings C17-F19/F20)",
     }
+
+    def pre_build(self):
+        from core import lean
+        repo = os.environ.get("COBA_REPO", "/repo")
+        notes = []
+        try:
+            info = extract_ops(repo)
+            body = ops_lean(info)
+            notes.append("operator table extracted from Table.where/_compare: literal %r, unpacked keys %r, not bisected %r, %d operator blocks; bisect condition `%s`"
+                         % (info["literal"], info["keys"], info["nobisect"], len(info["rows"]), info["guard"]))
+        except Exception as e:
+            body = ("-- GENERATED: the operator table could not be read off coba/results/core.py (%s)\n"
+                    "namespace Coba.Generated.C17\ndef whereLiteral : List String := []\ndef unpackKeys : List String := []\n"
+                    "def noBisectOps : List String := []\ndef compareTable : List (String × Option (List Bool) × String × Bool) := []\n"
+                    "def extracted : Bool := false\nend Coba.Generated.C17\n" % str(e).replace("\n", " ")[:150])
+            notes.append("operator table could NOT be extracted (%s): ops_table_eq_source fails to build" % e)
+        path = os.path.join(lean.LEAN_DIR, "CobaVerif", "Generated", "C17Ops.lean")
+        old = open(path, encoding="utf-8").read() if os.path.exists(path) else None
+        if old != body:
+            os.makedirs(os.path.dirname(path), exist_ok=True)
+            with open(path, "w", encoding="utf-8") as f:
+                f.write(body)
+        return notes
 
     def generate(self, rng, tier):
         return Gen(rng).case()
@@ -1929,6 +2154,7 @@ class C17(Property):
         cs.append(mk("ab", [[1, "x"], ["M", "y"], [2, "M"], ["M", "M"], [1, "y"]], IX(0, "a", "b"), W(0, a=V("M")), W(0, a={"d": [">", V(1)]}), W(0, a={"d": ["<", V(5)]}),
                      W(0, b={"d": ["!=", V("y")]}), {"op": "groupby", "t": 0, "level": 1, "select": {"many": ["a", "b"]}}, {"op": "copy", "t": 0}, W(6, a=L(1, "M"))))
         cs.append(mk("ab", [[1, 1.0], [1.0, 1], [0.5, 2], [2, 0.5]], IX(0, "a", "b"), W(0, a=V(1)), W(0, a=L(1, 1.0)), W(0, b={"d": ["<=", V(1)]}), {"op": "groupby", "t": 0, "level": 1, "select": "count"}))
+        cs.extend(vt_corpus())
         return cs
 
     def exhaustive(self, tier):
@@ -1985,6 +2211,8 @@ class C17(Property):
 
     # ---- evaluation
     def evaluate(self, case, driver):
+        if "vt" in case:
+            return vt_eval(case)
         run = Runner(case).run()
         fails, tags = list(run.fails), run.tags
         model = None
@@ -2006,6 +2234,20 @@ class C17(Property):
                     break
             if len(model) != len(run.obs):
                 fails.append(F("A", "model answered %d observations for %d" % (len(model), len(run.obs)), "A:length"))
+            # Phase 4: the machine with per-object _lohis caches (stepC) on the same operations: the real code must agree with it
+            # as well (A), and where OKC holds every fresh live object must pass invB and cohB at the end (multi_inv_reachable at run time)
+            cached = ans.get("cached")
+            if cached:
+                for k, (o, m) in enumerate(zip(run.obs, cached["obs"])):
+                    if o != m:
+                        fails.append(F("A", "after model op #%d (%s): implementation %s, machine with _lohis caches %s" % (k - 1, labels[k], json.dumps(o)[:400], json.dumps(m)[:400]), "A:cached:" + labels[k]))
+                        break
+                if len(cached["obs"]) != len(run.obs):
+                    fails.append(F("A", "machine with caches answered %d observations for %d" % (len(cached["obs"]), len(run.obs)), "A:cached:length"))
+                tags.append("M:okc-" + ("holds" if cached["okc"] else "fails"))
+                tags.append("M:objects-fresh:%d" % min(cached["fresh"], 4)); tags.append("M:objects-stale:%d" % min(cached["stale"], 4)); tags.append("M:warm-caches:%d" % min(cached["warm"], 3))
+                if cached["okc"] and not cached["good_end"]:
+                    fails.append(F("C", "OKC holds but a fresh live object of the machine with caches fails invB / cohB at the end", "C:multi_inv_reachable"))
             # ops_refine at run time: for the linear history of the case (operations on the table the history is "at"),
             # when every side condition holds (WFL) the code's table, the model's and the specification machine's agree up to ==
             def keyrows(o):
@@ -2080,6 +2322,15 @@ class C17(Property):
         return {"fails": fails, "nontrivial": run.nontrivial, "tags": tags, "impl": run.obs, "model": model}
 
     def shrink(self, case):
+        if "vt" in case:
+            v = case["vt"]
+            for k in range(len(v["cells"])):
+                if len(v["cells"]) > 1:
+                    yield {"vt": dict(v, cells=v["cells"][:k] + v["cells"][k + 1:])}
+            for k in range(len(v["probes"])):
+                if len(v["probes"]) > 1:
+                    yield {"vt": dict(v, probes=v["probes"][:k] + v["probes"][k + 1:])}
+            return
         ops = case["ops"]
         init = case["init"]
         # drop an operation (renumbering later table ids when the dropped one created a table)
@@ -2158,6 +2409,8 @@ class C17(Property):
                 yield {"init": dict(init, data=[[c, v[:i] + v[i + 1:]] for c, v in init["data"]]), "ops": ops}
 
     def snippet(self, case):
+        if "vt" in case:
+            return vt_snippet(case)
         return plain_snippet(case)
 
 
